@@ -334,7 +334,7 @@ def run(ctx):
         log("BUILD FAILED (harness crashnode):\n" + out[-3000:])
         raise SystemExit(2)
     vlib.regen_consts("Recover", "crashnode")
-    proofs_ok, info = ctx.check_proofs(make_targets=["Recover/Proofs.vo", "Properties/C06.vo"], gate_paths=["Recover", "Properties/C06"])
+    proofs_ok, info = ctx.check_proofs(make_targets=["Recover/ProofsMain.vo", "Recover/Proofs.vo", "Properties/C06.vo"], gate_paths=["Recover", "Properties/C06"])
     mok, mout, _ = vlib.model_build("Recover")
     if not mok:
         log("MODEL BUILD FAILED:\n" + mout[-3000:])
